@@ -4,6 +4,7 @@ open Sexp
 let dispatch kind args =
   match kind with
   | "toobj" | "toobjalt" | "toiface" | "rtobj" | "rtobjalt" | "rtgo" -> C20.run kind args
+  | "binop" | "vmbinop" | "equal" | "vmequal" | "nequal" | "vmnequal" | "unop" | "vmunop" -> C15.run kind args
   | _ -> failwith ("unknown kind " ^ kind)
 
 let () =
